@@ -21,11 +21,15 @@ pub struct Scn {
     pub medium: Medium,
     pub caps: Caps,
     pub ip_mtu: usize,
+    /// DeviceCapabilities::max_burst_size (0 = None)
+    pub burst: usize,
+    /// receive buffer of the TCP sockets
+    pub tcp_rx: usize,
 }
 impl Scn {
     fn to_json(&self) -> Value {
         json!({"part":"b","kind":self.kind,"ver":self.ver.n(),"size":self.size,"pattern":self.pattern,
-               "medium":medium_name(self.medium),"caps":self.caps.to_json(),"caps_name":self.caps.name(),"ip_mtu":self.ip_mtu})
+               "medium":medium_name(self.medium),"caps":self.caps.to_json(),"caps_name":self.caps.name(),"ip_mtu":self.ip_mtu,"max_burst_size":self.burst,"tcp_rx_buffer":self.tcp_rx})
     }
     fn from_json(r: &Value) -> Scn {
         Scn {
@@ -36,6 +40,8 @@ impl Scn {
             medium: medium_from(r["medium"].as_str().unwrap_or("ip")),
             caps: Caps::from_json(&r["caps"]),
             ip_mtu: r["ip_mtu"].as_u64().unwrap_or(1500) as usize,
+            burst: r["max_burst_size"].as_u64().unwrap_or(0) as usize,
+            tcp_rx: r["tcp_rx_buffer"].as_u64().unwrap_or(BUF as u64) as usize,
         }
     }
 }
@@ -53,7 +59,7 @@ const CLIENT_PORT: u16 = 50000;
 
 /// run one scenario on a fresh world; returns emitted raw frames and number of polls
 pub fn run_scn(s: &Scn) -> Result<(Vec<Vec<u8>>, u64), String> {
-    let mut w = World::new(s.medium, s.caps, s.ip_mtu, BUF);
+    let mut w = World::new_ext(s.medium, s.caps, s.ip_mtu, BUF, if s.burst == 0 { None } else { Some(s.burst) }, s.tcp_rx);
     let mut frames = std::mem::take(&mut w.boot_frames);
     let mut polls = 2u64;
     let (me, peer) = (s.ver.my(), s.ver.peer());
@@ -204,7 +210,7 @@ pub fn run_scn(s: &Scn) -> Result<(Vec<Vec<u8>>, u64), String> {
             }
             adv!(20);
             // echo the received bytes back
-            let mut got = vec![0u8; BUF];
+            let mut got = vec![0u8; BUF.max(s.tcp_rx)];
             let n = {
                 let so = w.sockets.get_mut::<tcp::Socket>(w.tcp_l);
                 if so.can_recv() {
@@ -314,6 +320,17 @@ pub fn check_frames(s: &Scn, frames: &[Vec<u8>], st: &mut BStats, verbose: bool)
         }
         let name = info.proto_name();
         let sub = info.subtype(ip);
+        if s.burst > 0 && info.proto == 6 && info.l4_end >= info.l4_off + 20 {
+            // non-vacuity of the max_burst_size dimension: is the advertised window the clamp value?
+            let thl = ((ip[info.l4_off + 12] >> 4) as usize) * 4;
+            // smoltcp computes the clamp from the DEVICE mtu (on Ethernet that includes the 14-byte link header)
+            let dev_mtu = if s.medium == Medium::Ethernet { s.ip_mtu + 14 } else { s.ip_mtu };
+            let clamp = s.burst * (dev_mtu - s.ver.iphdr() - thl);
+            let win = get16(&ip[info.l4_off + 14..]) as usize;
+            if ip[info.l4_off + 13] & RST == 0 {
+                st.inc(if win == clamp { "max_burst_size: tcp segment advertises exactly the clamped window" } else if win < clamp { "max_burst_size: tcp segment window below the clamp (clamp inactive)" } else { "max_burst_size: tcp segment window ABOVE the clamp" });
+            }
+        }
         let capi = Caps::index_for(info.ver, info.proto);
         let tx_on = capi.map(|i| s.caps.tx(i)).unwrap_or(false);
         let pre = if name == "igmp" || name == "other" {
@@ -440,7 +457,7 @@ pub fn run(rep: &mut Report, tier: Tier) {
     let mtu = 1500usize;
     for medium in [Medium::Ip, Medium::Ethernet] {
         for ver in [Ver::V4, Ver::V6] {
-            let mk = |kind: &str, size: usize, pattern: u8| Scn { kind: kind.into(), ver, size, pattern, medium, caps: Caps::DEFAULT, ip_mtu: mtu };
+            let mk = |kind: &str, size: usize, pattern: u8| Scn { kind: kind.into(), ver, size, pattern, medium, caps: Caps::DEFAULT, ip_mtu: mtu, burst: 0, tcp_rx: BUF };
             let max_dgram = mtu - ver.iphdr() - 8;
             let mss = mtu - ver.iphdr() - 20;
             list.push(mk("boot", 0, 0));
@@ -487,7 +504,33 @@ pub fn run(rep: &mut Report, tier: Tier) {
         }
         // IPv4 fragmentation on a 576-byte link
         for size in [549usize, 550, 551, 552, 553, 1000, 1103, 1104, 1105, 1400, 1471, 1472] {
-            list.push(Scn { kind: "udp-frag".into(), ver: Ver::V4, size, pattern: 2, medium, caps: Caps::DEFAULT, ip_mtu: 576 });
+            list.push(Scn { kind: "udp-frag".into(), ver: Ver::V4, size, pattern: 2, medium, caps: Caps::DEFAULT, ip_mtu: 576, burst: 0, tcp_rx: BUF });
+        }
+    }
+    // DeviceCapabilities::max_burst_size dimension (the TCP window clamp in Packet::emit_payload):
+    // {Some(1), Some(4)} x receive buffer {4096, 16384} x MTU {1500, 576}; None is the suite above.
+    // With burst*(mtu-hdrs) below the free receive buffer the clamp is active, otherwise not; both occur.
+    for medium in [Medium::Ip, Medium::Ethernet] {
+        for ver in [Ver::V4, Ver::V6] {
+            for burst in [1usize, 4] {
+                for tcp_rx in [4096usize, 16384] {
+                    for bmtu in [1500usize, 576] {
+                        let mss = bmtu - ver.iphdr() - 20;
+                        let mut tsz: Vec<usize> = (0..=40).collect();
+                        tsz.extend(boundary_sizes(mss));
+                        if thorough {
+                            tsz.extend((41..=mss).step_by(7));
+                        }
+                        tsz.sort();
+                        tsz.dedup();
+                        for &size in tsz.iter().filter(|&&x| x <= mss) {
+                            for kind in ["tcp-client", "tcp-server", "tcp-closed"] {
+                                list.push(Scn { kind: kind.into(), ver, size, pattern: 2, medium, caps: Caps::DEFAULT, ip_mtu: bmtu, burst, tcp_rx });
+                            }
+                        }
+                    }
+                }
+            }
         }
     }
     let st_default = run_list(&list);
@@ -505,7 +548,7 @@ pub fn run(rep: &mut Report, tier: Tier) {
             for kind in ["echo", "udp-closed", "proto-unk", "udp-send", "icmp-send", "tcp-client", "tcp-server", "tcp-closed", "mcast-join"] {
                 let sizes: &[usize] = if thorough { &[0, 1, 2, 3, 64, 65, 511, 1024, 1025, 1452] } else { &[0, 1, 2, 3] };
                 for &size in sizes {
-                    caps_list.push(Scn { kind: kind.into(), ver, size, pattern: 2, medium: Medium::Ip, caps, ip_mtu: mtu });
+                    caps_list.push(Scn { kind: kind.into(), ver, size, pattern: 2, medium: Medium::Ip, caps, ip_mtu: mtu, burst: 0, tcp_rx: BUF });
                     if kind == "mcast-join" {
                         break;
                     }
@@ -529,14 +572,14 @@ pub fn run(rep: &mut Report, tier: Tier) {
         "b_emitted",
         json!({
             "default_caps": {"scenarios": st_default.scenarios, "polls": st_default.polls, "frames_verified": st_default.frames, "per_class": st_default.counts,
-                "domain": "media {ip, ethernet} x {v4, v6} x kinds {boot, mcast-join, echo, echo-sock, udp-closed, proto-unk, udp-send(+crafted zero-sum), udp-send-unresolved(eth), icmp-send, tcp-client, tcp-server, tcp-closed, udp-frag(mtu 576)}; datagram kinds: every payload size 0..=MTU-hdr (counting) + boundary sizes (zeros, 0xFF; thorough: every size); tcp: sizes 0..=80, boundaries, MSS±, 2*MSS± (thorough: every size up to MSS)"},
+                "domain": "media {ip, ethernet} x {v4, v6} x kinds {boot, mcast-join, echo, echo-sock, udp-closed, proto-unk, udp-send(+crafted zero-sum), udp-send-unresolved(eth), icmp-send, tcp-client, tcp-server, tcp-closed, udp-frag(mtu 576)}; tcp kinds additionally with DeviceCapabilities::max_burst_size in {1,4} x tcp rx buffer {4096,16384} x ip mtu {1500,576} (window clamp active and inactive); datagram kinds: every payload size 0..=MTU-hdr (counting) + boundary sizes (zeros, 0xFF; thorough: every size); tcp: sizes 0..=80, boundaries, MSS±, 2*MSS± (thorough: every size up to MSS)"},
             "all_caps_settings": {"settings": n_caps, "scenarios": st_caps.scenarios, "polls": st_caps.polls, "frames_verified": st_caps.frames, "per_class": st_caps.counts,
                 "note": "4^5-1 non-default ChecksumCapabilities settings on medium ip; frames of protocols whose tx checksumming is off are counted under 'txoff', never asserted"},
         }),
     );
     // samples: one emitted frame of a few kinds
     for (kind, ver, size) in [("echo", Ver::V4, 3usize), ("udp-send", Ver::V6, 5), ("tcp-server", Ver::V4, 1)] {
-        let s = Scn { kind: kind.into(), ver, size, pattern: 2, medium: Medium::Ip, caps: Caps::DEFAULT, ip_mtu: mtu };
+        let s = Scn { kind: kind.into(), ver, size, pattern: 2, medium: Medium::Ip, caps: Caps::DEFAULT, ip_mtu: mtu, burst: 0, tcp_rx: BUF };
         if let Ok((frames, _)) = run_scn(&s) {
             if let Some(f) = frames.last() {
                 let i = classify(f);
